@@ -8,6 +8,7 @@ verus! {
 //@ include prelude/panic.rs
 //@ include prelude/radixval.rs
 //@ include prelude/strbytes.rs
+//@ include prelude/fmtmodel.rs
 //@ extract src/bigint.rs :: enum Sign attrs=1
 #[derive(/*+*/Structural, /*-*/PartialEq, PartialOrd, Eq, Ord, Copy, Clone, Debug, Hash)]
 pub enum Sign {
@@ -478,6 +479,15 @@ pub open spec fn printed(t: Seq<u8>, radix: u32, v: nat) -> bool {
     &&& (v == 0 ==> t =~= seq![48u8])
     &&& (v != 0 ==> t[0] != 48)
 }
+/// the formatter log grew by exactly one pad_integral call carrying the flag, the prefix and the canonical text of v
+/// in the radix (ASCII upper-cased when `upper`)
+pub open spec fn pad_logged(l0: Seq<PadCall>, l1: Seq<PadCall>, nonneg: bool, prefix: Seq<char>, radix: u32, v: nat, upper: bool) -> bool {
+    let c = l1.last();
+    &&& l1.len() == l0.len() + 1 && l1 == l0.push(c)
+    &&& c.nonneg == nonneg
+    &&& c.prefix =~= prefix
+    &&& exists|t: Seq<u8>| #[trigger] printed(t, radix, v) && c.text =~= (if upper { ascii_chars(t).map_values(|ch: char| upc(ch)) } else { ascii_chars(t) })
+}
 /// the emitted text parses back to the value (both by the contracts of the emitter and of the parser)
 pub proof fn lemma_print_parse(t: Seq<u8>, radix: u32, v: nat)
     requires printed(t, radix, v), 2 <= radix <= 36
@@ -584,7 +594,7 @@ impl BigUint {
     pub fn to_str_radix(&self, radix: u32) -> /*+*/(r: /*-*/String/*+*/)/*-*/
 //+{
         requires self.wf(), !mp() ==> 2 <= radix <= 36
-        ensures mp() ==> 2 <= radix <= 36, convert::printed(sbytes(r), radix, self.v())
+        ensures mp() ==> 2 <= radix <= 36, convert::printed(sbytes(r), radix, self.v()), r@ == ascii_chars(sbytes(r))
 //+}
     {
         let mut v = to_str_radix_reversed(self, radix);
@@ -603,6 +613,93 @@ impl BigUint {
         }
 //+}
         __from_utf8_unchecked(v)
+    }
+//@ end
+
+    // contract-only re-homing of the fmt trait impls (Display, LowerHex, UpperHex, Binary, Octal, Debug) as inherent methods
+//@ extract src/biguint.rs :: impl fmt::Display for BigUint :: fn fmt rules=R0,R49 rename=fmt_display props=C06 label=biguint_fmt_display
+    fn fmt_display(&self, f: &mut core::fmt::Formatter<'_>) -> /*+*/(r: /*-*/core::fmt::Result/*+*/)/*-*/
+//+{
+        requires self.wf()
+        ensures convert::pad_logged(flog(old(f)), flog(final(f)), true, Seq::<char>::empty(), 10, self.v(), false)
+//+}
+    {
+//+{
+        proof { reveal_strlit("");  }
+//+}
+        f.pad_integral(true, "", &self.to_str_radix(10))
+    }
+//@ end
+
+//@ extract src/biguint.rs :: impl fmt::LowerHex for BigUint :: fn fmt rules=R0,R49 rename=fmt_lower_hex props=C06 label=biguint_fmt_lower_hex
+    fn fmt_lower_hex(&self, f: &mut core::fmt::Formatter<'_>) -> /*+*/(r: /*-*/core::fmt::Result/*+*/)/*-*/
+//+{
+        requires self.wf()
+        ensures convert::pad_logged(flog(old(f)), flog(final(f)), true, seq!['0', 'x'], 16, self.v(), false)
+//+}
+    {
+//+{
+        proof { reveal_strlit("0x");  }
+//+}
+        f.pad_integral(true, "0x", &self.to_str_radix(16))
+    }
+//@ end
+
+//@ extract src/biguint.rs :: impl fmt::UpperHex for BigUint :: fn fmt rules=R0,R49 rename=fmt_upper_hex props=C06 label=biguint_fmt_upper_hex
+    fn fmt_upper_hex(&self, f: &mut core::fmt::Formatter<'_>) -> /*+*/(r: /*-*/core::fmt::Result/*+*/)/*-*/
+//+{
+        requires self.wf()
+        ensures convert::pad_logged(flog(old(f)), flog(final(f)), true, seq!['0', 'x'], 16, self.v(), true)
+//+}
+    {
+//+{
+        proof { reveal_strlit("0x");  }
+//+}
+        let mut s = self.to_str_radix(16);
+//+{
+        let ghost t0 = sbytes(s);
+//+}
+        __make_ascii_uppercase(&mut s);
+        f.pad_integral(true, "0x", &s)
+    }
+//@ end
+
+//@ extract src/biguint.rs :: impl fmt::Binary for BigUint :: fn fmt rules=R0,R49 rename=fmt_binary props=C06 label=biguint_fmt_binary
+    fn fmt_binary(&self, f: &mut core::fmt::Formatter<'_>) -> /*+*/(r: /*-*/core::fmt::Result/*+*/)/*-*/
+//+{
+        requires self.wf()
+        ensures convert::pad_logged(flog(old(f)), flog(final(f)), true, seq!['0', 'b'], 2, self.v(), false)
+//+}
+    {
+//+{
+        proof { reveal_strlit("0b");  }
+//+}
+        f.pad_integral(true, "0b", &self.to_str_radix(2))
+    }
+//@ end
+
+//@ extract src/biguint.rs :: impl fmt::Octal for BigUint :: fn fmt rules=R0,R49 rename=fmt_octal props=C06 label=biguint_fmt_octal
+    fn fmt_octal(&self, f: &mut core::fmt::Formatter<'_>) -> /*+*/(r: /*-*/core::fmt::Result/*+*/)/*-*/
+//+{
+        requires self.wf()
+        ensures convert::pad_logged(flog(old(f)), flog(final(f)), true, seq!['0', 'o'], 8, self.v(), false)
+//+}
+    {
+//+{
+        proof { reveal_strlit("0o");  }
+//+}
+        f.pad_integral(true, "0o", &self.to_str_radix(8))
+    }
+//@ end
+
+//@ extract src/biguint.rs :: impl fmt::Debug for BigUint :: fn fmt rules=R0,R49 rename=fmt_debug props=C06 label=biguint_fmt_debug
+    fn fmt_debug(&self, f: &mut core::fmt::Formatter<'_>) -> /*+*/(r: /*-*/core::fmt::Result/*+*/)/*-*/
+//+{
+        requires self.wf()
+        ensures convert::pad_logged(flog(old(f)), flog(final(f)), true, Seq::<char>::empty(), 10, self.v(), false)
+//+}
+    {
+        self.fmt_display(f)
     }
 //@ end
 
@@ -722,6 +819,93 @@ impl BigInt {
 //@ stub i_core/from_biguint
 //@ stub i_core/is_negative
 
+    // contract-only re-homing of the fmt trait impls (Display, Binary, Octal, LowerHex, UpperHex, Debug) as inherent methods
+//@ extract src/bigint.rs :: impl fmt::Display for BigInt :: fn fmt rules=R0,R49 rename=fmt_display props=C06 label=bigint_fmt_display
+    fn fmt_display(&self, f: &mut core::fmt::Formatter<'_>) -> /*+*/(r: /*-*/core::fmt::Result/*+*/)/*-*/
+//+{
+        requires self.wfi()
+        ensures convert::pad_logged(flog(old(f)), flog(final(f)), self.iv() >= 0, Seq::<char>::empty(), 10, self.mag().v(), false)
+//+}
+    {
+//+{
+        proof { reveal_strlit(""); lemma_sgn_mul(self.sign, self.data.v()); }
+//+}
+        f.pad_integral(!self.is_negative(), "", &self.data.to_str_radix(10))
+    }
+//@ end
+
+//@ extract src/bigint.rs :: impl fmt::LowerHex for BigInt :: fn fmt rules=R0,R49 rename=fmt_lower_hex props=C06 label=bigint_fmt_lower_hex
+    fn fmt_lower_hex(&self, f: &mut core::fmt::Formatter<'_>) -> /*+*/(r: /*-*/core::fmt::Result/*+*/)/*-*/
+//+{
+        requires self.wfi()
+        ensures convert::pad_logged(flog(old(f)), flog(final(f)), self.iv() >= 0, seq!['0', 'x'], 16, self.mag().v(), false)
+//+}
+    {
+//+{
+        proof { reveal_strlit("0x"); lemma_sgn_mul(self.sign, self.data.v()); }
+//+}
+        f.pad_integral(!self.is_negative(), "0x", &self.data.to_str_radix(16))
+    }
+//@ end
+
+//@ extract src/bigint.rs :: impl fmt::UpperHex for BigInt :: fn fmt rules=R0,R49 rename=fmt_upper_hex props=C06 label=bigint_fmt_upper_hex
+    fn fmt_upper_hex(&self, f: &mut core::fmt::Formatter<'_>) -> /*+*/(r: /*-*/core::fmt::Result/*+*/)/*-*/
+//+{
+        requires self.wfi()
+        ensures convert::pad_logged(flog(old(f)), flog(final(f)), self.iv() >= 0, seq!['0', 'x'], 16, self.mag().v(), true)
+//+}
+    {
+//+{
+        proof { reveal_strlit("0x"); lemma_sgn_mul(self.sign, self.data.v()); }
+//+}
+        let mut s = self.data.to_str_radix(16);
+//+{
+        let ghost t0 = sbytes(s);
+//+}
+        __make_ascii_uppercase(&mut s);
+        f.pad_integral(!self.is_negative(), "0x", &s)
+    }
+//@ end
+
+//@ extract src/bigint.rs :: impl fmt::Binary for BigInt :: fn fmt rules=R0,R49 rename=fmt_binary props=C06 label=bigint_fmt_binary
+    fn fmt_binary(&self, f: &mut core::fmt::Formatter<'_>) -> /*+*/(r: /*-*/core::fmt::Result/*+*/)/*-*/
+//+{
+        requires self.wfi()
+        ensures convert::pad_logged(flog(old(f)), flog(final(f)), self.iv() >= 0, seq!['0', 'b'], 2, self.mag().v(), false)
+//+}
+    {
+//+{
+        proof { reveal_strlit("0b"); lemma_sgn_mul(self.sign, self.data.v()); }
+//+}
+        f.pad_integral(!self.is_negative(), "0b", &self.data.to_str_radix(2))
+    }
+//@ end
+
+//@ extract src/bigint.rs :: impl fmt::Octal for BigInt :: fn fmt rules=R0,R49 rename=fmt_octal props=C06 label=bigint_fmt_octal
+    fn fmt_octal(&self, f: &mut core::fmt::Formatter<'_>) -> /*+*/(r: /*-*/core::fmt::Result/*+*/)/*-*/
+//+{
+        requires self.wfi()
+        ensures convert::pad_logged(flog(old(f)), flog(final(f)), self.iv() >= 0, seq!['0', 'o'], 8, self.mag().v(), false)
+//+}
+    {
+//+{
+        proof { reveal_strlit("0o"); lemma_sgn_mul(self.sign, self.data.v()); }
+//+}
+        f.pad_integral(!self.is_negative(), "0o", &self.data.to_str_radix(8))
+    }
+//@ end
+
+//@ extract src/bigint.rs :: impl fmt::Debug for BigInt :: fn fmt rules=R0,R49 rename=fmt_debug props=C06 label=bigint_fmt_debug
+    fn fmt_debug(&self, f: &mut core::fmt::Formatter<'_>) -> /*+*/(r: /*-*/core::fmt::Result/*+*/)/*-*/
+//+{
+        requires self.wfi()
+        ensures convert::pad_logged(flog(old(f)), flog(final(f)), self.iv() >= 0, Seq::<char>::empty(), 10, self.mag().v(), false)
+//+}
+    {
+        self.fmt_display(f)
+    }
+//@ end
+
     // contract-only re-homing of `impl Num for BigInt` / `impl FromStr for BigInt` (external traits)
 //@ extract src/bigint/convert.rs :: impl Num for BigInt :: fn from_str_radix rules=R0,R48 props=C06,C14 label=bigint_from_str_radix
     fn from_str_radix(mut s: &[u8], radix: u32) -> /*+*/(r: /*-*/Result<BigInt, ParseBigIntError>/*+*/)/*-*/
@@ -829,7 +1013,7 @@ impl BigInt {
     pub fn to_str_radix(&self, radix: u32) -> /*+*/(r: /*-*/String/*+*/)/*-*/
 //+{
         requires self.wfi(), !mp() ==> 2 <= radix <= 36
-        ensures mp() ==> 2 <= radix <= 36, iprinted(sbytes(r), radix, self.iv())
+        ensures mp() ==> 2 <= radix <= 36, iprinted(sbytes(r), radix, self.iv()), r@ == ascii_chars(sbytes(r))
 //+}
     {
 //+{
